@@ -85,6 +85,26 @@ fn hoist_write_f32_debug(out: &mut Sink, n: &f32) -> (r: Result<()>)
     ensures wrote(old(out), final(out), r, f32_debug(*n))
 { use std::io::Write; match write!(out.w, "{:?}", n) { Ok(()) => Ok(()), Err(_) => Err(PdfError::Io) } }
 
+// float-to-integer casts (only in an optional helper `serialize_real`, not in the pinned text): NO contract -- nothing is known
+// about the integer (Rust: truncation toward zero, saturating at the bounds, NaN -> 0)
+#[verifier::external_body]
+fn hoist_f32_as_i64(n: f32) -> (r: i64) { n as i64 }
+#[verifier::external_body]
+fn hoist_f32_as_i32(n: f32) -> (r: i32) { n as i32 }
+#[verifier::external_body]
+fn hoist_f32_as_u64(n: f32) -> (r: u64) { n as u64 }
+#[verifier::external_body]
+fn hoist_f32_as_u32(n: f32) -> (r: u32) { n as u32 }
+// Any other one-argument format (fallback of the R7 hoists in `serialize_real`): what `write!(out, FMT, a)` prints is a function
+// of the format string and of the argument's value, and nothing more is known about it (`fmt_spec` is uninterpreted). The format
+// string of `write!` must be a literal, so the hoisted expression cannot be written generically: pure env stub.
+pub uninterp spec fn fmt_spec<T>(fmt: Seq<char>, a: T) -> Seq<u8>;
+#[verifier::external_body]
+fn hoist_write_fmt<T>(out: &mut Sink, fmt: &str, a: T) -> (r: Result<()>)
+    // trusted: formatting a number never fails by itself; the bytes handed to write_all depend on (fmt, a) only
+    ensures wrote(old(out), final(out), r, fmt_spec(fmt@, a))
+{ unimplemented!() /* write!(out.w, <fmt>, a) */ }
+
 #[verifier::external_body]
 fn hoist_f32_fract_is_zero(n: &f32) -> (r: bool)
     // `n.fract() == 0.0`: true exactly for the finite values without fractional part, and `{}` prints a PERIOD exactly
@@ -225,6 +245,7 @@ proof fn lemma_entries_serializable(e: Seq<(Name, Primitive)>, n: nat, i: int)
     decreases n
 { if entries_serializable(e, n) && 0 <= i < n <= e.len() && i < n - 1 { lemma_entries_serializable(e, (n - 1) as nat, i); } }
 
+//@@ serialize_real
 impl Primitive {
 //@@ Primitive::serialize
 }
